@@ -385,6 +385,38 @@ theorem sync_live_only_after_stop (req : Req) (hist : Hist) (s : St) (h : Reacha
   rw [hb] at hi
   exact hi
 
+open CentrifugeVerif.Sync in
+/-- END TO END, every interleaving: whatever the broadcaster delivers and whenever, what the client
+has seen for the channel is the subscribe reply — covering `(req.offset, pos]` exactly once, in
+order, up to offsets withheld by the tags filter — followed by live pushes that form a sublist of
+`pos+1, pos+2, …` (no duplicate, no reordering, nothing before the reply), with the subscription's
+position never ahead of what was consumed.  (`WindowOK`: no PUB/SUB loss inside the subscribe
+window above the history top; without it the reply part fails, see the counter-witnesses.) -/
+theorem sync_client_view_contiguous (req : Req) (hist : Hist) (s : St) (h : Reachable req hist s)
+    (pubs : List MPub) (off pos e : Nat)
+    (hr : subscribe req hist s.taken = .reply true pubs off pos e)
+    (hb : BrokerContig hist) (hw : WindowOK req hist s.taken) :
+    (s.log = [] ∨ ∃ rest, s.log = .reply true pubs off :: rest) ∧
+    off = req.offset ∧
+    pubs.Pairwise (fun x y => x.offset < y.offset) ∧
+    (∀ p ∈ pubs, p.filtered = false ∧ req.offset < p.offset ∧ p.offset ≤ pos) ∧
+    (∀ o, req.offset < o → o ≤ pos →
+      o ∈ pubs.map (·.offset) ∨ o ∈ fOffsets (toMPubs 0 hist.pubs ++ s.taken)) ∧
+    (∃ n, (pushes s.log).Sublist (List.range' (pos + 1) n) ∧
+      (s.sub = none ∨ ∃ ep, s.sub = some ⟨pos + n, ep⟩)) := by
+  obtain ⟨h1, h2, h3, h4⟩ := reply_contiguous_partial req hist s.taken pubs off pos e hb hw hr
+  refine ⟨?_, h1, h2, h3, h4, sync_pushes_contiguous req hist s h true pubs off pos e hr⟩
+  have hi := (inv_reachable req hist s h).1
+  cases hspc : s.spc <;> simp only [InvS, hspc] at hi
+  case s5 | s6 | s7 =>
+    obtain ⟨r', pubs', off', pos', e', rest, h1', h2', _, _⟩ := hi.2.2.2.2
+    rw [hr] at h1'
+    simp only [Outcome.reply.injEq] at h1'
+    obtain ⟨hr1, hp1, ho1, _, _⟩ := h1'
+    subst hr1; subst hp1; subst ho1
+    exact Or.inr ⟨rest, h2'⟩
+  all_goals exact Or.inl hi.2.2.2.2.2
+
 /-! non-vacuity: a concrete interleaving with one buffered and one parked delivery reaches the
 settled state, delivers the buffered publication in the reply and the parked one live. -/
 open CentrifugeVerif.Sync in
